@@ -35,14 +35,16 @@ class TrainResult:
         self.file_inputs = []
 
 
-def train(pwfile, outdir, **kw):
-    """Runs the real run_trainer() in-process. Returns TrainResult."""
+def train(pwfile, outdir, keep_dir=False, **kw):
+    """Runs the real run_trainer() in-process. Returns TrainResult. keep_dir=True re-trains into an existing rule directory
+    (what 'trainer.py -r <existing rule>' does) instead of starting from an empty one."""
     import lib_trainer.run_trainer as rt
     import lib_trainer.pcfg_password_parser as pp
     from lib_trainer.trainer_file_output import create_rule_folders
     res = TrainResult()
     pi = program_info(pwfile, **kw)
-    shutil.rmtree(outdir, ignore_errors=True)
+    if not keep_dir:
+        shutil.rmtree(outdir, ignore_errors=True)
     saved = {'save_pcfg_data': rt.save_pcfg_data, 'save_omen': rt.save_omen_rules_to_disk, 'bsc': pp.base_structure_creation,
              'tfi': rt.TrainerFileInput, 'parse': pp.PCFGPasswordParser.parse}
     cur = {'pw': None}
